@@ -7,8 +7,10 @@ from harness import parse_common as PC
 from harness.driver import Driver, DriverError
 
 PID = 'C06'
-THEOREMS = []
-MODULES = []
+THEOREMS = ['PyDBML.C06.build_rule_abiding', 'PyDBML.C06.addTable_clash', 'PyDBML.C06.addTable_error', 'PyDBML.C06.addEnum_error',
+            'PyDBML.C06.enumStep_error', 'PyDBML.C06.buildGroup_ok', 'PyDBML.C06.buildGroup_error', 'PyDBML.C06.groupStep_twice',
+            'PyDBML.C06.refStep_ok', 'PyDBML.C06.locateTable_sound', 'PyDBML.C06.locateTable_error', 'PyDBML.C06.locateTable_complete']
+MODULES = ['PyDBMLProofs.Props.C06']
 
 VIOLATIONS = {
     'dupTable': 'lib:DatabaseValidationError', 'dupAlias': 'lib:DatabaseValidationError',
@@ -143,10 +145,17 @@ def main(tier, seed):
              'alias, alias equal to a key, duplicate enum, duplicate group, table twice in a group via any addressing, identical '
              'reference in any form/addressing, column-less table, dangling table/column in reference, index, group), inserted at '
              'a random element boundary, in random spelling. Distinct by document hash; all are non-trivial',
-        explanation='Oracle: the real parser must raise exactly the error class of the violated rule and never return a database. '
-                    'Correspondence: the Lean parser+build model gives the same class on every such document.',
+        explanation='Theorems about the build model (Build.buildDatabase = build_database + Database.add_* + Blueprint.build): '
+                    'build_rule_abiding - whatever it returns has pairwise key-disjoint tables (full name and alias), pairwise different '
+                    'enums (schema, name), pairwise different group names, duplicate-free group items, pairwise unequal references, and '
+                    'holds every declared table/enum/group/reference in order (nothing dropped): so a document with such a clash never '
+                    'yields a database; *_error / addTable_clash / groupStep_twice - the error is the one of the rule; locateTable_sound / '
+                    '_error / _complete - a lookup binds to a table carrying exactly the key asked for, or ends in TableNotFoundError. '
+                    'Oracle: the real parser must raise exactly the error class of the violated rule and never return a database. '
+                    'Correspondence: the Lean parser+build model gives the same class on every such document. The column-less table '
+                    'rule lives in the grammar model (tableRule: noColumns) and is covered by correspondence only.',
         assumptions=['the base document is accepted (checked) so the injected declaration is the only violation'],
-        trusted_base=['hand-written Lean model tied by this correspondence', 'harness/speller.py'],
+        trusted_base=['Lean 4.33 kernel', 'axioms: propext, Classical.choice, Quot.sound only', 'hand-written Lean model tied by this correspondence', 'harness/speller.py'],
         kf_replay=kf_replay, proof_problems=problems)
 
 
